@@ -141,6 +141,10 @@ def run(tier, seed):
             fixed.append(base)
             fixed.append(('(%s&"!")' % base[0], ['cat'] + base[1] + ['lit', core.enc('!')]))
             fixed.append(('IF((%s=TRUE),"yes","no")' % base[0], ['if3', 'eq'] + base[1] + ['lit', 'T', 'lit', core.enc('yes'), 'lit', core.enc('no')]))
+    # the condition / the guarded value refers to a cell in column IF (a column, not the function); the cell is blank like A4
+    fixed.append(('IF((IF1=0),"z","nz")', ['if3', 'eq', 'ref', '3', 'lit', 'I0', 'lit', core.enc('z'), 'lit', core.enc('nz')]))
+    fixed.append(('IFERROR((10/IF2),"n/a")', ['iferr', 'div', 'lit', 'I10', 'ref', '3', 'lit', core.enc('n/a')]))
+    fixed.append(('(1+IF(IF2,100,IF((IF1=7),20,30)))', ['add', 'lit', 'I1', 'if3', 'ref', '3', 'lit', 'I100', 'if3', 'eq', 'ref', '3', 'lit', 'I7', 'lit', 'I20', 'lit', 'I30']))
     for txt, toks in fixed:
         items.append((txt, toks))
         seen.add(txt)
